@@ -18,10 +18,10 @@ func init() {
 		ID:        "C04",
 		Run:       checkC04,
 		Technique: "static analysis: wire-length taint with a linear-inequality prover over dominating CFG edge guards, who-may-read census of the stream reader, must-pass token sequences of writer and reader, offset/size algebra of the writers (go/ssa)",
-		Explanation: "R1 every length obtained from quicvarint.Read in ReadTCPRequest/ReadTCPResponse/ParseUDPMessage (and helpers they call) is proved <= the protocol constant of its role (content: MaxAddressLength/MaxMessageLength, discarded padding: MaxPaddingLength) at every make / io.CopyN / read-buffer / slice-bound / call-argument it reaches, proved >= 1 for the request and UDP address, and is not provably below the largest legal value (the maximum is accepted); " +
+		Explanation: "R1 every length obtained from quicvarint.Read in ReadTCPRequest/ReadTCPResponse/ParseUDPMessage (and helpers they call) is proved <= the protocol constant of its role (content: MaxAddressLength/MaxMessageLength, discarded padding: MaxPaddingLength) at every make / io.CopyN / read-buffer / slice-bound / call-argument it reaches, proved >= 1 for the request and UDP address (at the sinks, or - when the length is consumed in a helper shared with a reader that accepts empty content - as len(result) >= 1 on every success return), and is not provably below the largest legal value (the maximum is accepted); " +
 			"R2 inside the stream readers the io.Reader flows only into quicvarint.NewReader->quicvarint.Read, io.ReadFull with a buffer whose length is exactly a declared length (or a constant), io.CopyN with exactly a declared length, ReadByte, or helpers obeying the same rule; " +
-			"R3 between quic-go's peek of the frame type and ReadTCPRequest exactly one varint is consumed from the stream (in the dispatcher, on the FrameTypeTCPRequest case, or at the start of the handler), the dispatcher passes the stream to nothing else, and no other stream use precedes ReadTCPRequest in the handler; the client reads the response exactly once - lazily behind Established==false, setting Established, or eagerly before a tcpConn{Established:true} is built; " +
-			"R4 reader token sequence (request V B V B, response U8 V B V B, each block sized by the varint before it, every token on every success path, blocks skipped only on a zero-length edge) equals the writer's sequence, whose fields are laid out at running offsets, each length prefix being len() of the block that follows and the buffer size being the exact sum of the fields; " +
+			"R3 between quic-go's peek of the frame type and ReadTCPRequest exactly one varint is consumed from the stream (in the dispatcher, on the FrameTypeTCPRequest case, or at the start of the handler), the dispatcher passes the stream to nothing else, and no other stream use precedes ReadTCPRequest in the handler; the client reads the response exactly once - lazily behind Established==false, setting Established, or eagerly before a tcpConn with Established true is built (composite literal, field-wise assignment, or a constructor taking the flag/stream as parameters: decided at its call sites); " +
+			"R4 reader token sequence (request V B V B, response U8 V B V B, each block sized by the varint before it, every token on every success path, blocks skipped only on a zero-length edge) equals the writer's sequence, whose fields are laid out at running offsets (directly, through nested re-slices, through a put-block helper that is checked the same way, or by a chain of append/quicvarint.Append from an empty slice), each length prefix being len() of the block that follows and the buffer size being the exact sum of the fields; " +
 			"R5 the writer's varint encoder agrees with RFC 9000 for every legal value (1-byte range <=63, 2-byte range >=64 with the 0x40 tag and big-endian bytes, wider encodings only above the largest legal value), and every padding length a writer can draw is accepted by the reader (<= MaxPaddingLength).",
 		NotDecided: []string{
 			"round-trip equality for all contents and all chunkings as such (R2 gives no over-read / no short read, R4/R5 give format agreement)",
@@ -32,6 +32,7 @@ func init() {
 		Assumptions: []string{
 			"quicvarint.NewReader(r) for an r without ReadByte reads through a one-byte buffer and quicvarint.Read consumes exactly one varint (dependency bodies are not loaded in the quick tier)",
 			"io.ReadFull / io.CopyN consume exactly len(buf) / n bytes on success (standard library contract)",
+			"quicvarint.Append (quic-go's encoder), when a writer uses it instead of the repository's varintPut, agrees with quicvarint.Len and RFC 9000",
 			"quic-go's StreamDispatcher only peeks the frame type before calling the dispatcher",
 			"TrafficLogger.TraceStream/UntraceStream register the stream and do not read from it",
 		},
@@ -51,16 +52,17 @@ type c04root struct {
 }
 
 type c04ctx struct {
-	c       *Check
-	p       *Prog
-	roots   []*c04root
-	fns     []*ssa.Function              // union of the closures
-	rootsOf map[*ssa.Function][]*c04root // roots from which a function is reachable
-	lps     map[*ssa.Function]*linProver // one prover per function
-	lens    *c04lens                     // wire-length sources
-	padMax  map[string]int64             // writer name -> largest padding length it can draw (R5), -1 unknown
-	consts  map[string]int64             // protocol constants
-	keys    map[string]int               // key de-duplication
+	c         *Check
+	p         *Prog
+	roots     []*c04root
+	fns       []*ssa.Function              // union of the closures
+	rootsOf   map[*ssa.Function][]*c04root // roots from which a function is reachable
+	lps       map[*ssa.Function]*linProver // one prover per function
+	lens      *c04lens                     // wire-length sources
+	padMax    map[string]int64             // writer name -> largest padding length it can draw (R5), -1 unknown
+	consts    map[string]int64             // protocol constants
+	keys      map[string]int               // key de-duplication
+	libVarint int                          // varints the writers encode with quicvarint.Append (quic-go's encoder)
 }
 
 func (k *c04ctx) key(s string) string {
@@ -471,7 +473,9 @@ func c04isErrorType(t types.Type) bool {
 func (k *c04ctx) ruleR1() {
 	c, p := k.c, k.p
 	const r1 = "C04.R1 a length read from the wire is bounded by its protocol constant (and is non-zero for addresses) on every path before it sizes an allocation, a read, a discard or a slice; the largest legal value is still accepted"
-	nUpper, nNonzero := 0, 0
+	// per reader: how many obligations of each kind were decided for it (a helper shared by two
+	// readers stands for a flow in each)
+	upOf, nzOf := map[*c04root]int{}, map[*c04root]int{}
 	padLimit := k.consts["MaxPaddingLength"]
 	for _, fn := range k.fns {
 		for _, s := range k.lens.byFn[fn] {
@@ -519,13 +523,17 @@ func (k *c04ctx) ruleR1() {
 				base := k.key(fmt.Sprintf("C04.R1:%s:len%d→%s", fnName(fn), s.ord, sk.kind))
 				pos := p.InstrPos(sk.at)
 				what := fmt.Sprintf("%s (%s, read at %s) reaches %s", s, role, p.InstrPos(s.call), sk.kind)
-				nUpper += len(roots) // a helper shared by two readers stands for a flow in each
+				for _, rt := range roots {
+					upOf[rt]++
+				}
 				c.Req(lp.proveAt(sk.at, sk.L, linConst(limit), 0, nil), base+":bounded", r1, pos,
 					fmt.Sprintf("%s without `n <= %s (%d)` holding on every path: a peer-declared length above the limit is allocated/read", what, limName, limit))
 				cx := lp.newCtx(sk.at)
 				V := lp.lin(s.val, cx)
 				if nonzero {
-					nNonzero += len(roots)
+					for _, rt := range roots {
+						nzOf[rt]++
+					}
 					c.Req(lp.proveAt(sk.at, linConst(1), V, 0, nil), base+":nonzero", r1, pos,
 						what+" without `n >= 1` holding on every path: an empty address is not rejected")
 				}
@@ -536,8 +544,52 @@ func (k *c04ctx) ruleR1() {
 			}
 		}
 	}
-	c.Floor("C04.R1:bounded", nUpper, 5)
-	c.Floor("C04.R1:nonzero", nNonzero, 4)
+	// a reader whose empty-content rejection is not visible at the sinks (the length is read and
+	// consumed in a helper shared with a reader that accepts empty content): the rejection must then
+	// show on the result - every success return hands out content of length >= 1
+	for _, rt := range k.roots {
+		if !rt.nonzero || nzOf[rt] > 0 || upOf[rt] == 0 {
+			continue
+		}
+		lp := k.lp(rt.fn)
+		n, all := 0, true
+		var at ssa.Instruction
+		allInstrs(rt.fn, func(in ssa.Instruction) {
+			r, ok := in.(*ssa.Return)
+			if !ok || !c04successReturn(r) {
+				return
+			}
+			for _, rv := range retResults(r) {
+				if rv == nil || !isBytesOrString(rv.Type()) {
+					continue
+				}
+				n++
+				cx := lp.newCtx(r)
+				if !lp.proveAt(r, linConst(1), lp.lenOf(rv, cx), 0, nil) {
+					all, at = false, r
+				}
+			}
+		})
+		key := "C04.R1:" + rt.name + ":result-nonzero"
+		switch {
+		case n > 0 && all:
+			nzOf[rt]++
+			c.OK(key, r1, p.Pos(rt.fn.Pos()))
+		case n > 0:
+			c.Undecided(key, r1, p.InstrPos(at), "no length of "+rt.name+" is checked against 0 where it is consumed, and the returned content is not proved non-empty on this success return: rejection of an empty address is not recognised")
+		}
+	}
+	nUp, nNz := 0, 0
+	for _, rt := range k.roots {
+		if upOf[rt] > 0 {
+			nUp++
+		}
+		if rt.nonzero && nzOf[rt] > 0 {
+			nNz++
+		}
+	}
+	c.Floor("C04.R1:bounded", nUp, 3) // one per reader
+	c.Floor("C04.R1:nonzero", nNz, 2) // one per reader that must reject empty content
 }
 
 // ---------------------------------------------------------------------------
@@ -991,10 +1043,21 @@ func (k *c04ctx) ruleReaders() {
 type c04wtok struct {
 	kind string // "F" byte store, "V" varint, "B" block
 	at   ssa.Instruction
-	off  ssa.Value // offset of the destination inside the buffer (nil = 0)
-	offK int64     // F: constant index
-	res  ssa.Value // the call whose result is the number of bytes written
-	arg  ssa.Value // V: encoded value; B: source block
+	off  []ssa.Value // lower bounds of the nested re-slices leading to the destination: their sum is its offset inside the buffer
+	offK int64       // F: constant index
+	res  ssa.Value   // the call whose result is the number of bytes written
+	arg  ssa.Value   // V: encoded value; B: source block
+	// tokens emitted by a block helper (`n := put(dst[off:], block)`), mapped to the caller
+	lenOf   ssa.Value // V: the value encoded is len(lenOf) (a value of the caller)
+	inlined bool      // offset verified inside the helper, relative to the helper's first token
+}
+
+// c04vOperand classifies the value a V token encodes.
+func c04vOperand(t *c04wtok) (kind string, kv int64, of ssa.Value) {
+	if t.lenOf != nil {
+		return "len", 0, t.lenOf
+	}
+	return c04lenOperand(t.arg)
 }
 
 func c04linEq(a, b lin) bool {
@@ -1024,6 +1087,261 @@ func c04varintLen(v int64) int64 {
 		return 4
 	}
 	return 8
+}
+
+// c04blockHelper recognises a call `n := h(dst, x...)` of a repository helper that lays
+// fields out in its first parameter exactly like a writer does (varint / copy at running
+// offsets starting at 0) and returns the number of bytes written.  The helper's tokens are
+// returned with their operands mapped to the caller's arguments.  (nil, "") = not such a call.
+func (k *c04ctx) c04blockHelper(call *ssa.Call, dst ssa.Value, putters map[*ssa.Function]bool) ([]*c04wtok, string) {
+	p := k.p
+	h := staticCallee(call)
+	cc := call.Common()
+	if h == nil || !p.IsRepoFn(h) || len(h.Blocks) == 0 || len(cc.Args) < 2 || len(cc.Args) != len(h.Params) || cc.Args[0] != dst || !isIntType(call.Type()) {
+		return nil, ""
+	}
+	for _, a := range cc.Args[1:] {
+		if a == dst {
+			return nil, ""
+		}
+	}
+	prmIdx := func(v ssa.Value) int {
+		if v == nil {
+			return -1
+		}
+		v = resolve(v)
+		for i, q := range h.Params {
+			if ssa.Value(q) == v {
+				return i
+			}
+		}
+		return -1
+	}
+	var toks []*c04wtok
+	why := ""
+	var walk func(v ssa.Value, offs []ssa.Value, depth int)
+	walk = func(v ssa.Value, offs []ssa.Value, depth int) {
+		refs := v.Referrers()
+		if refs == nil {
+			return
+		}
+		for _, r := range *refs {
+			switch u := r.(type) {
+			case *ssa.DebugRef:
+			case *ssa.Slice:
+				if u.X != v || u.High != nil || u.Max != nil || depth > 4 {
+					why = "re-sliced with an upper bound in the helper"
+					continue
+				}
+				no := append([]ssa.Value(nil), offs...)
+				if u.Low != nil {
+					no = append(no, u.Low)
+				}
+				walk(u, no, depth+1)
+			case *ssa.Call:
+				uc := u.Common()
+				switch {
+				case isBuiltinCall(u, "copy") && uc.Args[0] == v:
+					toks = append(toks, &c04wtok{kind: "B", at: u, off: offs, res: u, arg: uc.Args[1]})
+				case isBuiltinCall(u, "len") || isBuiltinCall(u, "cap"):
+				default:
+					if f := staticCallee(u); f != nil && p.IsRepoFn(f) && len(uc.Args) == 2 && uc.Args[0] == v && isIntType(uc.Args[1].Type()) && isIntType(u.Type()) {
+						putters[f] = true
+						toks = append(toks, &c04wtok{kind: "V", at: u, off: offs, res: u, arg: uc.Args[1]})
+					} else {
+						why = "the helper hands the buffer to " + c04calleeName(u)
+					}
+				}
+			default:
+				why = "unrecognised use of the buffer in the helper: " + r.String()
+			}
+		}
+	}
+	walk(h.Params[0], nil, 0)
+	if why != "" || len(toks) == 0 {
+		if why == "" {
+			why = "the helper writes nothing recognisable"
+		}
+		return nil, why
+	}
+	c04sortInstrs(toks, func(t *c04wtok) ssa.Instruction { return t.at })
+	lp := k.lp(h)
+	running := linConst(0)
+	for _, t := range toks {
+		cx := lp.newCtx(t.at)
+		off := linConst(0)
+		for _, o := range t.off {
+			off = off.add(lp.lin(o, cx))
+		}
+		if !c04linEq(off, running) {
+			return nil, fmt.Sprintf("a field of the helper is written at offset [%s] but the previous fields end at [%s]", off, running)
+		}
+		running = running.add(linAtom(t.res))
+	}
+	nRet := 0
+	allInstrs(h, func(in ssa.Instruction) {
+		r, ok := in.(*ssa.Return)
+		if !ok {
+			return
+		}
+		nRet++
+		res := retResults(r)
+		if len(res) != 1 || res[0] == nil {
+			why = "the helper does not return one byte count"
+			return
+		}
+		if !c04linEq(lp.lin(res[0], lp.newCtx(r)), running) {
+			why = "the helper does not return the number of bytes it wrote"
+		}
+	})
+	if why != "" || nRet == 0 {
+		return nil, why
+	}
+	// operands in terms of the caller
+	var out []*c04wtok
+	for _, t := range toks {
+		nt := &c04wtok{kind: t.kind}
+		switch t.kind {
+		case "B":
+			j := prmIdx(t.arg)
+			if j < 1 {
+				return nil, "a block copied by the helper is not one of its parameters"
+			}
+			nt.arg = cc.Args[j]
+		case "V":
+			kind, _, of := c04lenOperand(t.arg)
+			switch kind {
+			case "const":
+				nt.arg = t.arg
+			case "len":
+				j := prmIdx(of)
+				if j < 1 {
+					return nil, "a length written by the helper is not len() of one of its parameters"
+				}
+				nt.lenOf = cc.Args[j]
+			default:
+				j := prmIdx(c04peelInt(t.arg))
+				if j < 1 {
+					return nil, "a varint written by the helper is neither a constant, a len() nor a parameter"
+				}
+				nt.arg = cc.Args[j]
+			}
+		}
+		out = append(out, nt)
+	}
+	return out, ""
+}
+
+// c04appendChain follows the value handed to Write back through append(x, block...),
+// append(x, b0, b1...) and quicvarint.Append(x, v) to an empty (or constant-length) base and
+// returns the fields in the order they were appended.
+func c04appendChain(v ssa.Value) (toks []*c04wtok, lib int, ok bool) {
+	var rev []*c04wtok
+	fixed := func(at ssa.Instruction, n int64) {
+		for i := int64(0); i < n; i++ {
+			rev = append(rev, &c04wtok{kind: "F", at: at})
+		}
+	}
+	// the spread argument of append(x, b0, b1): a slice of a fresh [N]byte
+	varargs := func(y ssa.Value) (int64, bool) {
+		sl, isS := y.(*ssa.Slice)
+		if !isS || sl.Low != nil || sl.High != nil || sl.Max != nil {
+			return 0, false
+		}
+		al, isA := sl.X.(*ssa.Alloc)
+		if !isA {
+			return 0, false
+		}
+		arr, isArr := al.Type().(*types.Pointer).Elem().Underlying().(*types.Array)
+		if !isArr {
+			return 0, false
+		}
+		return arr.Len(), true
+	}
+	isAppend := func(x ssa.Value) (*ssa.Call, bool) {
+		call, isC := x.(*ssa.Call)
+		return call, isC && isBuiltinCall(call, "append") && len(call.Call.Args) == 2
+	}
+	done := false
+	for depth := 0; depth < 64 && !done; depth++ {
+		switch x := v.(type) {
+		case *ssa.MakeSlice:
+			n, isC := constInt(x.Len)
+			if !isC || n < 0 || n > 8 {
+				return nil, 0, false
+			}
+			fixed(x, n)
+			done = true
+		case *ssa.Const:
+			if !x.IsNil() {
+				return nil, 0, false
+			}
+			done = true
+		case *ssa.Slice:
+			// buf[:0] of a fresh buffer
+			hi, isC := constInt(x.High)
+			if x.High == nil || !isC || hi != 0 || x.Low != nil {
+				return nil, 0, false
+			}
+			if _, isM := x.X.(*ssa.MakeSlice); !isM {
+				return nil, 0, false
+			}
+			done = true
+		case *ssa.Call:
+			if call, isApp := isAppend(x); isApp {
+				y := call.Call.Args[1]
+				if n, isVar := varargs(y); isVar {
+					fixed(call, n)
+				} else if isBytesOrString(y.Type()) {
+					rev = append(rev, &c04wtok{kind: "B", at: call, res: call, arg: y})
+				} else {
+					return nil, 0, false
+				}
+				v = call.Call.Args[0]
+				continue
+			}
+			if calleeIs(x, c04pQV, "Append") && len(x.Call.Args) == 2 {
+				rev = append(rev, &c04wtok{kind: "V", at: x, res: x, arg: x.Call.Args[1]})
+				lib++
+				v = x.Call.Args[0]
+				continue
+			}
+			return nil, 0, false
+		case *ssa.Phi:
+			// if ok { buf = append(buf, 0) } else { buf = append(buf, 1) }
+			var base ssa.Value
+			var width int64 = -1
+			for _, e := range x.Edges {
+				call, isApp := isAppend(e)
+				if !isApp {
+					return nil, 0, false
+				}
+				n, isVar := varargs(call.Call.Args[1])
+				if !isVar || (width >= 0 && n != width) || (base != nil && base != call.Call.Args[0]) {
+					return nil, 0, false
+				}
+				width, base = n, call.Call.Args[0]
+			}
+			if base == nil {
+				return nil, 0, false
+			}
+			fixed(x, width)
+			v = base
+		default:
+			r := resolve(v)
+			if r == v {
+				return nil, 0, false
+			}
+			v = r
+		}
+	}
+	if !done {
+		return nil, 0, false
+	}
+	for i := len(rev) - 1; i >= 0; i-- {
+		toks = append(toks, rev[i])
+	}
+	return toks, lib, len(toks) > 0
 }
 
 func (k *c04ctx) ruleWriters() {
@@ -1078,15 +1396,22 @@ func (k *c04ctx) ruleWriters() {
 			continue
 		}
 		M, ok := resolve(writes[0].Common().Args[0]).(*ssa.MakeSlice)
+		var toks []*c04wtok
+		appendStyle := false
 		if !ok {
-			c.Undecided(key+":buffer", r4, p.InstrPos(writes[0]), "the bytes written are not a buffer allocated with make in the writer: the frame layout is not recognised")
-			continue
+			// append style: the frame is built by a chain of append / quicvarint.Append calls
+			ch, lib, chOK := c04appendChain(writes[0].Common().Args[0])
+			if !chOK {
+				c.Undecided(key+":buffer", r4, p.InstrPos(writes[0]), "the bytes written are neither a buffer allocated with make and filled in place nor a chain of appends in the writer: the frame layout is not recognised")
+				continue
+			}
+			toks, appendStyle = ch, true
+			k.libVarint += lib
 		}
 		// writes into the buffer
-		var toks []*c04wtok
 		undec := ""
 		fOff := map[int64]bool{}
-		dstUse := func(dst ssa.Value, off ssa.Value, r ssa.Instruction) {
+		dstUse := func(dst ssa.Value, off []ssa.Value, r ssa.Instruction) {
 			switch u := r.(type) {
 			case *ssa.DebugRef:
 			case *ssa.Call:
@@ -1106,6 +1431,19 @@ func (k *c04ctx) ruleWriters() {
 				if ssa.Instruction(u) == writes[0].(ssa.Instruction) {
 					return
 				}
+				if sub, why := k.c04blockHelper(u, dst, putters); sub != nil {
+					for i, t := range sub {
+						t.at, t.off, t.inlined = u, off, i > 0
+						if i == len(sub)-1 {
+							t.res = u
+						}
+					}
+					toks = append(toks, sub...)
+					return
+				} else if why != "" {
+					undec = "buffer handed to " + c04calleeName(u) + " (" + why + ")"
+					return
+				}
 				undec = "buffer handed to " + c04calleeName(u)
 			default:
 				if ssa.Instruction(u) == writes[0].(ssa.Instruction) {
@@ -1114,33 +1452,64 @@ func (k *c04ctx) ruleWriters() {
 				undec = "unrecognised use of the buffer: " + r.String()
 			}
 		}
-		for _, r := range *M.Referrers() {
-			switch u := r.(type) {
-			case *ssa.Slice:
-				if u.X != ssa.Value(M) || u.High != nil || u.Max != nil {
-					undec = "buffer re-sliced with an upper bound"
-					continue
-				}
-				for _, rr := range *u.Referrers() {
-					dstUse(u, u.Low, rr)
-				}
-			case *ssa.IndexAddr:
-				idx, ok := constInt(u.Index)
-				if !ok {
-					undec = "byte store at a computed index"
-					continue
-				}
-				for _, rr := range *u.Referrers() {
-					if st, ok := rr.(*ssa.Store); ok && st.Addr == ssa.Value(u) {
-						if !fOff[idx] {
-							fOff[idx] = true
-							toks = append(toks, &c04wtok{kind: "F", at: st, offK: idx})
+		// views of the buffer: buf, buf[a:], (buf[a:])[b:], ... each with the list of
+		// lower bounds that add up to its offset inside the buffer
+		var walkView func(v ssa.Value, offs []ssa.Value, depth int)
+		walkView = func(v ssa.Value, offs []ssa.Value, depth int) {
+			refs := v.Referrers()
+			if refs == nil {
+				return
+			}
+			for _, r := range *refs {
+				switch u := r.(type) {
+				case *ssa.Slice:
+					if u.X != v {
+						dstUse(v, offs, r)
+						continue
+					}
+					if u.High != nil || u.Max != nil {
+						undec = "buffer re-sliced with an upper bound"
+						continue
+					}
+					if depth > 4 {
+						undec = "buffer re-sliced too deeply"
+						continue
+					}
+					no := append([]ssa.Value(nil), offs...)
+					if u.Low != nil {
+						no = append(no, u.Low)
+					}
+					walkView(u, no, depth+1)
+				case *ssa.IndexAddr:
+					if u.X != v {
+						dstUse(v, offs, r)
+						continue
+					}
+					idx, ok := constInt(u.Index)
+					for _, o := range offs {
+						ko, ok2 := constInt(o)
+						ok = ok && ok2
+						idx += ko
+					}
+					if !ok {
+						undec = "byte store at a computed index"
+						continue
+					}
+					for _, rr := range *u.Referrers() {
+						if st, ok := rr.(*ssa.Store); ok && st.Addr == ssa.Value(u) {
+							if !fOff[idx] {
+								fOff[idx] = true
+								toks = append(toks, &c04wtok{kind: "F", at: st, offK: idx})
+							}
 						}
 					}
+				default:
+					dstUse(v, offs, r)
 				}
-			default:
-				dstUse(M, nil, r)
 			}
+		}
+		if !appendStyle {
+			walkView(M, nil, 0)
 		}
 		if undec != "" {
 			c.Undecided(key+":layout", r4, p.Pos(fn.Pos()), "writer shape not recognised ("+undec+")")
@@ -1155,20 +1524,29 @@ func (k *c04ctx) ruleWriters() {
 				cs = append(cs, t)
 			}
 		}
-		sort.Slice(fs, func(i, j int) bool { return fs[i].offK < fs[j].offK })
-		c04sortInstrs(cs, func(t *c04wtok) ssa.Instruction { return t.at })
-		toks = append(fs, cs...)
+		if !appendStyle {
+			sort.Slice(fs, func(i, j int) bool { return fs[i].offK < fs[j].offK })
+			c04sortInstrs(cs, func(t *c04wtok) ssa.Instruction { return t.at })
+			toks = append(fs, cs...)
+		}
 		nW++
 		// offsets are the running sum
 		running := linConst(0)
 		layoutOK := true
 		for i, t := range toks {
+			if appendStyle {
+				break // appended fields are back to back by construction
+			}
 			cx := lp.newCtx(t.at)
 			off := linConst(t.offK)
-			if t.kind != "F" && t.off != nil {
-				off = lp.lin(t.off, cx)
-			} else if t.kind != "F" {
+			if t.kind != "F" {
 				off = linConst(0)
+				for _, o := range t.off {
+					off = off.add(lp.lin(o, cx))
+				}
+			}
+			if t.inlined {
+				off = running
 			}
 			if !c04linEq(off, running) {
 				layoutOK = false
@@ -1178,7 +1556,7 @@ func (k *c04ctx) ruleWriters() {
 			}
 			if t.kind == "F" {
 				running = running.add(linConst(1))
-			} else {
+			} else if t.res != nil {
 				running = running.add(linAtom(t.res))
 			}
 		}
@@ -1195,7 +1573,7 @@ func (k *c04ctx) ruleWriters() {
 			case "B":
 				names = append(names, "B")
 			case "V":
-				kind, kv, _ := c04lenOperand(t.arg)
+				kind, kv, _ := c04vOperand(t)
 				switch {
 				case kind == "const" && kv == k.consts["FrameTypeTCPRequest"]:
 					names = append(names, "V(type)")
@@ -1219,7 +1597,7 @@ func (k *c04ctx) ruleWriters() {
 			}
 			blocks = append(blocks, t)
 			prev := toks[i-1]
-			_, _, of := c04lenOperand(prev.arg)
+			_, _, of := c04vOperand(prev)
 			c.Req(of != nil && sameValue(of, t.arg), fmt.Sprintf("%s:field%d:prefix-is-len-of-block", key, i+1), r4, p.InstrPos(prev.at),
 				"the length prefix written before this block is not len() of the block itself (wrong variable): the reader would cut the block at the wrong place")
 		}
@@ -1230,7 +1608,9 @@ func (k *c04ctx) ruleWriters() {
 			c.Req(contentFirst, key+":content-block", r4, p.InstrPos(blocks[0].at), "the first block is not the address/message handed to the writer (fields emitted in another order than the reader parses them)")
 		}
 		// buffer size = sum of the fields
-		{
+		if appendStyle {
+			c.OK(key+":buffer-size", r4, p.InstrPos(writes[0])) // length of an append chain from an empty slice is the sum of what was appended
+		} else {
 			cx := lp.newCtx(M)
 			L := lp.lin(M.Len, cx)
 			why := ""
@@ -1241,7 +1621,7 @@ func (k *c04ctx) ruleWriters() {
 				case "B":
 					L = L.sub(lp.lenOf(t.arg, cx))
 				case "V":
-					kind, kv, of := c04lenOperand(t.arg)
+					kind, kv, of := c04vOperand(t)
 					var match ssa.Value
 					for a, coef := range L.c {
 						call, ok := a.(*ssa.Call)
@@ -1456,6 +1836,11 @@ func c04byteExpr(v ssa.Value, i ssa.Value) (shift, tag int64, ok bool) {
 func (k *c04ctx) ruleVarintPut(putters map[*ssa.Function]bool) {
 	c, p := k.c, k.p
 	const r5 = "C04.R5 the writer's varint encoder agrees with quicvarint.Len and RFC 9000 for every legal value: 1 byte exactly for 0..63, 2 bytes (0x40 tag, big endian) from 64 up to at least the largest legal length, wider encodings or a panic only above it"
+	if len(putters) == 0 && k.libVarint > 0 {
+		// quic-go's own encoder (the one quicvarint.Len and the peer's quicvarint.Read belong to)
+		c.OK("C04.R5:varint-encoder:quicvarint.Append", r5, "")
+		return
+	}
 	if len(putters) != 1 {
 		c.Undecided("C04.R5:varint-encoder", r5, "", fmt.Sprintf("the writers use %d different varint encoders", len(putters)))
 		return
@@ -1939,12 +2324,93 @@ func (k *c04ctx) ruleR3() {
 	})
 	c.Floor("C04.R3:payload-read", nPayload, 1)
 
-	// ---- client: every tcpConn literal
-	nLit := 0
+	// ---- client: every construction of a tcpConn (composite literal, field-wise
+	// assignment, or a constructor whose Established/Orig come from its parameters:
+	// then the verdict is taken at the constructor's call sites)
+	isMethod := map[*ssa.Function]bool{}
+	for _, m := range methods {
+		isMethod[m] = true
+	}
+	var clientFns []*ssa.Function
 	for _, fn := range p.RepoFns {
-		if pk := fnPkg(fn); pk == nil || pk.Pkg.Path() != pClient {
-			continue
+		if pk := fnPkg(fn); pk != nil && pk.Pkg.Path() == pClient {
+			clientFns = append(clientFns, fn)
 		}
+	}
+	respOKOn := func(stream ssa.Value) func(cond ssa.Value, pol bool) bool {
+		return func(cond ssa.Value, pol bool) bool {
+			x, isNil, ok := nilTest(cond, pol)
+			if !ok || !isNil {
+				return false
+			}
+			tup, idx := tupleSource(x)
+			call, isCall := tup.(*ssa.Call)
+			if !isCall || idx != 2 || staticCallee(call) != readResp {
+				return false
+			}
+			return sameValue(c04peelIface(call.Call.Args[0]), c04peelIface(stream))
+		}
+	}
+	paramIdx := func(fn *ssa.Function, v ssa.Value) int {
+		if v == nil {
+			return -1
+		}
+		if prm, ok := resolve(c04peelIface(v)).(*ssa.Parameter); ok {
+			for i, q := range fn.Params {
+				if q == prm {
+					return i
+				}
+			}
+		}
+		return -1
+	}
+	// c04est: verdict on "Established := est on an object whose stream is orig" at `at` in fn:
+	// 0 false (lazy path), 1 true behind a successful ReadTCPResponse of that stream, 2 true without it, 3 unknown
+	var c04est func(fn *ssa.Function, at ssa.Instruction, est, orig ssa.Value, depth int) (int, string)
+	c04est = func(fn *ssa.Function, at ssa.Instruction, est, orig ssa.Value, depth int) (int, string) {
+		if est == nil || isConstBool(est, false) || isConstBool(resolve(est), false) {
+			return 0, ""
+		}
+		if isConstBool(est, true) || isConstBool(resolve(est), true) {
+			// stream not identifiable (Orig set elsewhere): a successful ReadTCPResponse of some stream must still precede
+			if (orig != nil && guardedBy(at, respOKOn(orig))) || (orig == nil && guardedBy(at, respOK)) {
+				return 1, ""
+			}
+			return 2, p.InstrPos(at)
+		}
+		ei := paramIdx(fn, est)
+		if ei < 0 || depth >= 3 {
+			return 3, "Established is initialised with a computed value at " + p.InstrPos(at)
+		}
+		oi := paramIdx(fn, orig)
+		verdict, detail, n := 0, "", 0
+		for _, g := range clientFns {
+			allInstrs(g, func(in ssa.Instruction) {
+				ci, ok := in.(ssa.CallInstruction)
+				if !ok || staticCallee(ci) != fn || ei >= len(ci.Common().Args) {
+					return
+				}
+				n++
+				var o ssa.Value
+				if oi >= 0 && oi < len(ci.Common().Args) {
+					o = ci.Common().Args[oi]
+				}
+				v, d := c04est(g, in, ci.Common().Args[ei], o, depth+1)
+				if _, isGo := in.(*ssa.Go); isGo && v == 1 {
+					v, d = 3, "constructor started with go at "+p.InstrPos(in)
+				}
+				if v == 2 || (v == 3 && verdict != 2) || (v == 1 && verdict == 0) {
+					verdict, detail = v, d
+				}
+			})
+		}
+		if n == 0 {
+			return 3, "no static call site of " + fnName(fn) + " found for its Established parameter"
+		}
+		return verdict, detail
+	}
+	nLit := 0
+	for _, fn := range clientFns {
 		allInstrs(fn, func(in ssa.Instruction) {
 			al, ok := in.(*ssa.Alloc)
 			if !ok || namedOf(al.Type()) != tcT {
@@ -1954,7 +2420,8 @@ func (k *c04ctx) ruleR3() {
 				return
 			}
 			nLit++
-			var est, orig *ssa.Store
+			var ests []*ssa.Store
+			var orig *ssa.Store
 			for _, r := range *al.Referrers() {
 				fa, ok := r.(*ssa.FieldAddr)
 				if !ok {
@@ -1965,7 +2432,7 @@ func (k *c04ctx) ruleR3() {
 					if st, ok := rr.(*ssa.Store); ok && st.Addr == ssa.Value(fa) {
 						switch f {
 						case fEst:
-							est = st
+							ests = append(ests, st)
 						case fOrig:
 							orig = st
 						}
@@ -1973,29 +2440,72 @@ func (k *c04ctx) ruleR3() {
 				}
 			}
 			lkey := "C04.R3:" + fnName(fn) + ":tcpConn"
-			switch {
-			case est == nil || isConstBool(est.Val, false):
+			var origVal ssa.Value
+			if orig != nil {
+				origVal = orig.Val
+			}
+			verdict, detail := 0, ""
+			for _, est := range ests {
+				v, d := c04est(fn, est, est.Val, origVal, 0)
+				if v == 2 || (v == 3 && verdict != 2) || (v == 1 && verdict == 0) {
+					verdict, detail = v, d
+				}
+			}
+			switch verdict {
+			case 0:
 				c.OK(k.key(lkey+"{Established:false}"), r3, p.InstrPos(al))
-			case isConstBool(est.Val, true):
-				ok := orig != nil && guardedBy(est, func(cond ssa.Value, pol bool) bool {
-					x, isNil, ok := nilTest(cond, pol)
-					if !ok || !isNil {
-						return false
-					}
-					tup, idx := tupleSource(x)
-					call, isCall := tup.(*ssa.Call)
-					if !isCall || idx != 2 || staticCallee(call) != readResp {
-						return false
-					}
-					return sameValue(c04peelIface(call.Call.Args[0]), c04peelIface(orig.Val))
-				})
-				c.Req(ok, k.key(lkey+"{Established:true}"), r3, p.InstrPos(al), "a connection is marked Established without ReadTCPResponse having succeeded on its stream: the response frame is delivered to the application as payload")
+			case 1:
+				c.OK(k.key(lkey+"{Established:true}"), r3, p.InstrPos(al))
+			case 2:
+				c.Bad(k.key(lkey+"{Established:true}"), r3, p.InstrPos(al), "a connection is marked Established (at "+detail+") without ReadTCPResponse having succeeded on its stream: the response frame is delivered to the application as payload")
 			default:
-				c.Undecided(k.key(lkey+"{Established:?}"), r3, p.InstrPos(al), "Established is initialised with a computed value")
+				c.Undecided(k.key(lkey+"{Established:?}"), r3, p.InstrPos(al), detail)
 			}
 		})
 	}
-	c.Floor("C04.R3:tcpConn-literals", nLit, 2)
+	// stores of Established outside the methods of tcpConn on an object built elsewhere
+	// (e.g. on the result of a constructor)
+	for _, fn := range clientFns {
+		if isMethod[fn] {
+			continue
+		}
+		allInstrs(fn, func(in ssa.Instruction) {
+			st, ok := in.(*ssa.Store)
+			if !ok {
+				return
+			}
+			fa, ok := st.Addr.(*ssa.FieldAddr)
+			if !ok || structField(fa.X.Type(), fa.Field) != fEst {
+				return
+			}
+			if _, isAlloc := fa.X.(*ssa.Alloc); isAlloc {
+				return // judged above
+			}
+			if _, isCall := resolve(fa.X).(*ssa.Call); !isCall {
+				return // an object handed in from elsewhere (helper of the lazy path): not a construction site
+			}
+			// the stream of the object: a store to Orig through the same pointer in this function, if any
+			var origVal ssa.Value
+			allInstrs(fn, func(in2 ssa.Instruction) {
+				if st2, ok := in2.(*ssa.Store); ok {
+					if fa2, ok := st2.Addr.(*ssa.FieldAddr); ok && structField(fa2.X.Type(), fa2.Field) == fOrig && sameValue(fa2.X, fa.X) {
+						origVal = st2.Val
+					}
+				}
+			})
+			lkey := "C04.R3:" + fnName(fn) + ":tcpConn.Established="
+			v, d := c04est(fn, st, st.Val, origVal, 0)
+			switch v {
+			case 0, 1:
+				c.OK(k.key(lkey+"ok"), r3, p.InstrPos(st))
+			case 2:
+				c.Bad(k.key(lkey+"true"), r3, p.InstrPos(st), "a connection is marked Established (at "+d+") without ReadTCPResponse having succeeded on its stream: the response frame is delivered to the application as payload")
+			default:
+				c.Undecided(k.key(lkey+"?"), r3, p.InstrPos(st), d)
+			}
+		})
+	}
+	c.Floor("C04.R3:tcpConn-literals", nLit, 1)
 }
 
 func c04peelIface(v ssa.Value) ssa.Value {
